@@ -124,6 +124,21 @@ def treeUpdateShallow (f : Nat) (m : Mem) (t u : Nat) (ig : List Val) : Res (Mem
   | .error e => .error e
   | .ok its => itemsToTreeShallow m its t ig
 
+/-- `table_to_tree(tree, pattern, rows, base = type(tree))` for the tree at address `t` and the items `its` its rows bind
+(`_table_to_tree.py:31-38`, repaired code, fix `4e01c0b`: `_tree_copy(tree)`, then one `_tree_setitem` per row; no duplicate check, no
+ignore list).  `ValueError` for an item without a key ('node item too short'; the code raises it in the middle of the loop, after
+writes into the COPY only). -/
+def tableToTreeH (f : Nat) (m : Mem) (its : List (Path × Val)) (t : Nat) : Res (Mem × Nat) :=
+  if its.any (·.1.isEmpty) then .error Err.value
+  else match copyH f m t with
+    | .error e => .error e
+    | .ok (m1, c) => .ok (setItemsH m1 c its [], c)
+
+/-- the code before that fix: `tree = copy(tree)`, one level only -/
+def tableToTreeShallow (m : Mem) (its : List (Path × Val)) (t : Nat) : Res (Mem × Nat) :=
+  if its.any (·.1.isEmpty) then .error Err.value
+  else .ok (setItemsH (alloc m (node m t)).1 m.heap.length its [], m.heap.length)
+
 /-- read the tree below a reference back (the abstraction function, executable) -/
 def readN (rec : Ref → Option Val) : Node → Option (List (String × Val))
   | [] => some []
